@@ -179,9 +179,6 @@ func c06run(out *rec.Out, c c06case, rng *rec.Rng, stats map[string]int) {
 	case c.mode == "wit" || c.perturb > 0:
 		ctl = sched.Install()
 		defer ctl.Remove()
-		if c.perturb > 0 {
-			ctl.Perturb(rng.U64(), c.perturb)
-		}
 	}
 
 	in, defs, err := eng.Start(g.XML(), nil)
@@ -213,6 +210,11 @@ func c06run(out *rec.Out, c c06case, rng *rec.Rng, stats map[string]int) {
 		w0mu.Lock()
 		in.Note("note wit0 parked=%d", w0parked)
 		w0mu.Unlock()
+	}
+	if c.perturb > 0 {
+		// perturbation starts only now: the start-up of the instance (monitor subscription against the start event,
+		// property C02) is not what this family explores
+		ctl.Perturb(rng.U64(), c.perturb)
 	}
 	in.Note("phase compete")
 	switch c.mode {
